@@ -29,7 +29,7 @@ PROPS = {
     "C06": P("plans = (request instant at ns granularity, attacker window, hidden offset, k); modes: replay divergence (same plan, same simulated clock, two fresh processes-worth of state), "
              "k logins at one frozen instant, redirect for a presented id, time-window attacker trying every candidate instant in +-w ns with a fresh replica per candidate; "
              "non-trivial = identifiers were produced and compared; distinct = (mode, instant, window, offset, k). evaluations counts plans; probes count candidate logins",
-             {"runs": 1200, "budget_s": 25}, {"runs": 200000, "budget_s": 600}, must={"all": ["replayed-logins", "same-instant-logins", "time-window-candidates", "restarted-logins"]}),
+             {"runs": 1200, "budget_s": 25}, {"runs": 200000, "budget_s": 600}, must={"all": ["replayed-logins", "same-instant-logins", "time-window-candidates", "restarted-logins", "concurrent-logins"]}),
     "C01": P("plans = seeded histories of 5-40 steps (honest browsing, logout, attacker requests with absent/garbage/foreign/stale/attacker-chosen cookies on protected, public and "
              "trigger-rule edge-case targets, forged callbacks, clock advances around token expiry, IdP behaviour changes, key rotation, crash-restart) in a fault-free and a fault-injecting "
              "configuration (store err-before/err-after/evict/corrupt/crash at the n-th seam call, token endpoint reset-before/reset-after/5xx/truncated/garbage, key-source errors), "
